@@ -103,7 +103,14 @@ def iterate(ds, split, iface="sync", **kw) -> list:
         return list(ds.as_numpy_iterator_concurrent(split=split, **kw))
     if iface == "rust":
         kw.setdefault("file_parallelism", 2)
-        return list(ds.as_numpy_iterator_rust(split=split, **kw))
+        try:
+            return list(ds.as_numpy_iterator_rust(split=split, **kw))
+        except BaseException as e:  # pylint: disable=broad-except
+            # a Rust panic arrives as pyo3's PanicException, a BaseException
+            # that cannot be pickled back from a worker process
+            if type(e).__name__ == "PanicException":
+                raise RustPanic(str(e)[:300]) from None
+            raise
     if iface == "async":
         kw.setdefault("file_parallelism", 2)
 
@@ -124,6 +131,10 @@ def iterate(ds, split, iface="sync", **kw) -> list:
 
 def ids(ds, split, iface="sync", **kw) -> list[tuple]:
     return [to_id(e) for e in iterate(ds, split, iface, **kw)]
+
+
+class RustPanic(RuntimeError):
+    """pyo3_runtime.PanicException converted to an ordinary exception."""
 
 
 def sha256(path) -> str:
@@ -203,6 +214,10 @@ def take(ds, split, iface, k, **kw) -> list:
                 out.append(e)
                 if len(out) >= k:
                     break
+        except BaseException as e:  # pylint: disable=broad-except
+            if type(e).__name__ == "PanicException":
+                raise RustPanic(str(e)[:300]) from None
+            raise
         finally:
             gen.close()
         return out
